@@ -40,7 +40,8 @@ CHECKS = {
    level="model_checking",
    text="The schedule is symbolic: at each token request (parsers) or visit() call (generators) a z3 Bool decides whether control passes to another instance; all schedules "
         "with <=2 (quick) / <=3 (thorough) context switches are explored as paths, for (a) the real parser on symbolic token templates with holes and clashing typedef/variable names, "
-        "(b) the untouched parser with a scheduling subclass of the real CLexer on 6 concrete texts (2 and 3 parsers), (c) two CGenerators. Each instance's result must equal its result when run alone.",
+        "(b) the untouched parser with a scheduling subclass of the real CLexer on 6 concrete texts (2 and 3 parsers), (c) two CGenerators, (d) one instance parsing ANY program of the C05 statement templates / rare-construct patterns (symbolic tokens) followed by fresh instances parsing six canary programs "
+        "(module-level containers of the parser module restored to load-time contents at every path start). Each instance's result must equal its result when run alone (alone = fresh interpreter / pristine module state).",
    note=TRUST + "Token-granularity cooperative schedules only; pre-emptive thread switches inside a token request and free-running threads are outside the claim. Part (b)/(c) inputs are concrete; only the schedule is symbolic.",
    technique="symbolic scheduler: interleavings as z3 Boolean decision variables over the real code run in strictly handed-off threads; exhaustive over schedules within the switch bound",
    design="4/C13"),
